@@ -159,6 +159,12 @@ mod vec;
 #[cfg(prometheus_verif)]
 #[doc(hidden)]
 pub mod verif_rt;
+#[cfg(prometheus_verif_sync)]
+#[doc(hidden)]
+pub mod verif_sync;
+#[cfg(prometheus_verif_map)]
+#[doc(hidden)]
+pub mod verif_map;
 #[cfg(all(prometheus_verif, any(kani, prometheus_verif_replay)))]
 include!(concat!(env!("PROMETHEUS_VERIF_INCRATE"), "/mod.rs"));
 
